@@ -551,6 +551,12 @@ func (r *Resolver) groupLookup(ctx context.Context, rs *resolveState, req *dns.M
 	}
 	key := strconv.FormatUint(cache.Key(q), 10) + "|" + servers.Zone +
 		"|" + string(cd) + "|" + strconv.FormatUint(servers.Fingerprint(), 10)
+	// A forwarded client subnet is part of the question an ECS-aware
+	// authority answers (RFC 7871 §7.3.1): lookups that carry different
+	// subnets, or one that carries none, must not share an answer.
+	if sub := requestSubnet(req); sub != nil {
+		key += "|" + strconv.Itoa(int(sub.Family)) + "/" + strconv.Itoa(int(sub.SourceNetmask)) + "/" + sub.Address.String()
+	}
 
 	// The leader closure can outlive this caller: TimedDoChan returns on this
 	// caller's timeout/cancel while the shared generation remains registered
@@ -3297,6 +3303,20 @@ func (r *Resolver) clearAdditional(req, resp *dns.Msg, extra ...bool) *dns.Msg {
 	}
 
 	return resp
+}
+
+// requestSubnet returns the client-subnet option of a request's OPT, if any.
+func requestSubnet(req *dns.Msg) *dns.EDNS0_SUBNET {
+	opt := req.IsEdns0()
+	if opt == nil {
+		return nil
+	}
+	for _, o := range opt.Option {
+		if sub, ok := o.(*dns.EDNS0_SUBNET); ok {
+			return sub
+		}
+	}
+	return nil
 }
 
 func (r *Resolver) equalServers(s1, s2 *authority.Servers) bool {
